@@ -11,19 +11,24 @@ type VerifC21Reader struct {
 	fp     []byte
 	st     *ChunkedStorage2
 	readAt func(b []byte, offset int64) error
+	// the constructor's write side, kept so that a harness may wrap st.WriteAt / st.Truncate (storage fault injection)
+	// for one use: Open always puts the constructor's own closures back
+	writeAt  func(offset int64, data []byte) error
+	truncate func(offset int64) error
 }
 
 func VerifC21NewReader() *VerifC21Reader {
 	r := &VerifC21Reader{}
 	r.st = NewChunkedStorage2Slice(&r.fp)
 	r.readAt = r.st.ReadAt
+	r.writeAt, r.truncate = r.st.WriteAt, r.st.Truncate
 	return r
 }
 
 // Open copies img into the reader's own file buffer and returns the storage positioned at the start.
 func (r *VerifC21Reader) Open(img []byte) *ChunkedStorage2 {
 	r.fp = append(r.fp[:0], img...)
-	*r.st = ChunkedStorage2{scratch: r.st.scratch, ReadAt: r.readAt, WriteAt: r.st.WriteAt, Truncate: r.st.Truncate, initialFileSize: int64(len(img))}
+	*r.st = ChunkedStorage2{scratch: r.st.scratch, ReadAt: r.readAt, WriteAt: r.writeAt, Truncate: r.truncate, initialFileSize: int64(len(img))}
 	return r.st
 }
 
